@@ -25,7 +25,8 @@ def register(w):
         # chain: parent->child order, ends at the target, starts just below stop_at (or at the root)
         c.ens("len(result) >= 1 or to_state == stop_at", label="nonempty-unless-target-is-stop")
         c.ens("implies(len(result) >= 1, result[len(result) - 1] == to_state)", label="ends-at-target")
-        c.ens("forall[int](lambda i: implies(0 <= i and i < len(result) - 1, result[i + 1].parent == result[i]))", label="parent-child-chain")
+        # multi-pattern: instantiating this clause must not create the next index term (that is a matching loop in every caller)
+        c.ens("forall[int](lambda i: implies(0 <= i and i < len(result) - 1, result[i + 1].parent == result[i]), lambda i: (result[i], result[i + 1]))", label="parent-child-chain")
         c.ens("forall[int](lambda i: implies(0 <= i and i < len(result), result[i] != None and anc(to_state, result[i]) and result[i] != stop_at))", label="members-are-ancestors-below-stop")
         c.ens("implies(len(result) >= 1, result[0].parent == stop_at or result[0].parent == None)", label="starts-below-stop-or-at-root")
         c.ens("forall[int](lambda i: implies(0 <= i and i < len(result), result[i].depth == to_state.depth - (len(result) - 1 - i)))", label="depths-consecutive")
